@@ -26,6 +26,8 @@ KNOWN = {
     ("nix_manipulator/mapping.py", "EXPRESSION_TYPES"): "type registry, written only by register_expression at import time",
     ("nix_manipulator/mapping.py", "TREE_SITTER_TYPE_TO_EXPRESSION"): "type registry, written only by register_expression at import time",
 }
+# the justification of a whitelisted object depends on what kind of object it is
+KNOWN_KIND = {"_SOURCE_BYTES": "ContextVar", "_SOURCE_PATH": "ContextVar", "_PARSER_LOCAL": "local"}
 MUTABLE_CALLS = {"dict", "list", "set", "defaultdict", "OrderedDict", "local", "ContextVar", "deque", "WeakValueDictionary",
                  "WeakKeyDictionary", "Counter"}
 CACHE_DECORATORS = {"lru_cache", "cache", "cached_property", "memoize"}
@@ -83,7 +85,8 @@ def run(tier="quick"):
                 if t.id == "__all__" or not is_mutable_value(value):
                     continue
                 obligations += 1
-                if (rel, t.id) in KNOWN:
+                if (rel, t.id) in KNOWN and (KNOWN_KIND.get(t.id) is None or
+                                             (isinstance(value, ast.Call) and ast.unparse(value.func).split(".")[-1] == KNOWN_KIND[t.id])):
                     discharged += 1
                 elif t.id not in mutated and isinstance(value, (ast.Set, ast.List, ast.Dict)) and \
                         all(isinstance(e, ast.Constant) for e in ast.walk(value) if isinstance(e, ast.expr) and e is not value and not isinstance(e, (ast.Tuple, ast.Load))):
@@ -94,6 +97,30 @@ def run(tier="quick"):
                                                 f"(can couple documents, working directories or histories)"))
         for node in ast.walk(tree):
             if isinstance(node, (ast.FunctionDef, ast.AsyncFunctionDef)):
+                # module attributes rebound at run time (`global X` + assignment): process-wide state shared by all threads
+                # and all documents - a ContextVar is what keeps such a value per context
+                gl = {n for st in ast.walk(node) if isinstance(st, ast.Global) for n in st.names}
+                if gl:
+                    written = set()
+                    for st in ast.walk(node):
+                        tg = []
+                        if isinstance(st, ast.Assign):
+                            tg = st.targets
+                        elif isinstance(st, (ast.AugAssign, ast.AnnAssign)):
+                            tg = [st.target]
+                        for t in tg:
+                            for n in ast.walk(t):
+                                if isinstance(n, ast.Name) and n.id in gl:
+                                    written.add(n.id)
+                    for name in sorted(written):
+                        obligations += 1
+                        if False:
+                            pass  # (the whitelist of justified objects never covers a rebound module attribute)
+                        else:
+                            violations.append(dict(obligation=f"global-state[{rel}: global {name} rebound in {node.name}]", check="global-state",
+                                                   has_input=False,
+                                                   what=f"module attribute `{name}` of {rel} is rebound at run time in {node.name}(): state shared by every "
+                                                        f"thread and document of the process (not a ContextVar)"))
                 for d in node.decorator_list:
                     name = ast.unparse(d)
                     if any(c in name for c in CACHE_DECORATORS):
